@@ -65,6 +65,10 @@ Kinds == <<
   [id |-> "kq", start |-> "code", end |-> "code", cont |-> FALSE, opens |-> FALSE, stmt |-> TRUE, needcont |-> TRUE, toks |-> <<"str">>],
   [id |-> "kf", start |-> "code", end |-> "code", cont |-> FALSE, opens |-> FALSE, stmt |-> TRUE, needcont |-> TRUE, toks |-> <<"open3s", "text", "close3s", "code", "str">>],
   [id |-> "k3", start |-> "code", end |-> "tsq", cont |-> FALSE, opens |-> FALSE, stmt |-> TRUE, needcont |-> TRUE, toks |-> <<"open3s", "text">>],
+  [id |-> "k3d", start |-> "code", end |-> "tdq", cont |-> FALSE, opens |-> FALSE, stmt |-> TRUE, needcont |-> TRUE, toks |-> <<"open3d", "text">>],
+  [id |-> "kbs", start |-> "code", end |-> "code", cont |-> TRUE, opens |-> FALSE, stmt |-> TRUE, needcont |-> TRUE, toks |-> <<"str", "code", "bs1">>],
+  [id |-> "kc3", start |-> "code", end |-> "code", cont |-> FALSE, opens |-> FALSE, stmt |-> TRUE, needcont |-> TRUE, toks |-> <<"str", "comment">>],
+  [id |-> "o3sb", start |-> "code", end |-> "tsq", cont |-> FALSE, opens |-> FALSE, stmt |-> TRUE, needcont |-> FALSE, toks |-> <<"code", "open3s", "text", "bs1">>],
   [id |-> "xs", start |-> "tsq", end |-> "tsq", cont |-> FALSE, opens |-> FALSE, stmt |-> TRUE, needcont |-> FALSE, toks |-> <<"text">>],
   [id |-> "xos", start |-> "tsq", end |-> "tsq", cont |-> FALSE, opens |-> FALSE, stmt |-> TRUE, needcont |-> FALSE, toks |-> <<"text">>],
   [id |-> "xhs", start |-> "tsq", end |-> "tsq", cont |-> FALSE, opens |-> FALSE, stmt |-> TRUE, needcont |-> FALSE, toks |-> <<"text">>],
@@ -76,6 +80,7 @@ Kinds == <<
   [id |-> "zs", start |-> "tsq", end |-> "code", cont |-> FALSE, opens |-> FALSE, stmt |-> TRUE, needcont |-> FALSE, toks |-> <<"text", "close3s">>],
   [id |-> "zcs", start |-> "tsq", end |-> "code", cont |-> FALSE, opens |-> FALSE, stmt |-> TRUE, needcont |-> FALSE, toks |-> <<"text", "close3s", "code", "str">>],
   [id |-> "zms", start |-> "tsq", end |-> "code", cont |-> FALSE, opens |-> FALSE, stmt |-> TRUE, needcont |-> FALSE, toks |-> <<"text", "close3s", "comment">>],
+  [id |-> "zbss", start |-> "tsq", end |-> "code", cont |-> TRUE, opens |-> FALSE, stmt |-> TRUE, needcont |-> FALSE, toks |-> <<"text", "close3s", "code", "bs1">>],
   [id |-> "zos", start |-> "tsq", end |-> "tdq", cont |-> FALSE, opens |-> FALSE, stmt |-> TRUE, needcont |-> FALSE, toks |-> <<"text", "close3s", "code", "open3d", "text">>],
   [id |-> "xd", start |-> "tdq", end |-> "tdq", cont |-> FALSE, opens |-> FALSE, stmt |-> TRUE, needcont |-> FALSE, toks |-> <<"text">>],
   [id |-> "xod", start |-> "tdq", end |-> "tdq", cont |-> FALSE, opens |-> FALSE, stmt |-> TRUE, needcont |-> FALSE, toks |-> <<"text">>],
@@ -88,6 +93,7 @@ Kinds == <<
   [id |-> "zd", start |-> "tdq", end |-> "code", cont |-> FALSE, opens |-> FALSE, stmt |-> TRUE, needcont |-> FALSE, toks |-> <<"text", "close3d">>],
   [id |-> "zcd", start |-> "tdq", end |-> "code", cont |-> FALSE, opens |-> FALSE, stmt |-> TRUE, needcont |-> FALSE, toks |-> <<"text", "close3d", "code", "str">>],
   [id |-> "zmd", start |-> "tdq", end |-> "code", cont |-> FALSE, opens |-> FALSE, stmt |-> TRUE, needcont |-> FALSE, toks |-> <<"text", "close3d", "comment">>],
+  [id |-> "zbsd", start |-> "tdq", end |-> "code", cont |-> TRUE, opens |-> FALSE, stmt |-> TRUE, needcont |-> FALSE, toks |-> <<"text", "close3d", "code", "bs1">>],
   [id |-> "zod", start |-> "tdq", end |-> "tsq", cont |-> FALSE, opens |-> FALSE, stmt |-> TRUE, needcont |-> FALSE, toks |-> <<"text", "close3d", "code", "open3s", "text">>],
   [id |-> "q2", start |-> "sqc", end |-> "code", cont |-> FALSE, opens |-> FALSE, stmt |-> TRUE, needcont |-> FALSE, toks |-> <<"text", "closesq">>],
   [id |-> "qc1", start |-> "sqc", end |-> "sqc", cont |-> FALSE, opens |-> FALSE, stmt |-> TRUE, needcont |-> FALSE, toks |-> <<"text", "bs1">>],
